@@ -243,6 +243,14 @@ func DoRequestFollowRedirects(ctx context.Context, req *protocol.Request, resp *
 		}
 		url = getRedirectURL(url, location)
 
+		// 303 See Other: the redirected request is a GET without the body (RFC 7231, section 6.4.4).
+		if statusCode == consts.StatusSeeOther && !req.Header.IsGet() && !req.Header.IsHead() {
+			req.Header.SetMethodBytes(bytestr.StrGet)
+			req.ResetBody()
+			req.Header.SetContentLength(0)
+			req.Header.Del(consts.HeaderContentType)
+		}
+
 		// Remove the former host header.
 		req.Header.Del(consts.HeaderHost)
 	}
